@@ -45,7 +45,8 @@ func (prop) Sweep(string) []kernel.Scenario { return nil }
 
 func (prop) Describe() kernel.Description {
 	return kernel.Description{
-		Rule: "one run = one (base path with optional query, path pattern with 0–4 placeholders / repeated placeholder / trailing slash / static query, value map, " +
+		Rule: "Dimensions added with the seed waves: an auth writer that reads the request and scribbles on what the getters hand out; earlier requests on the same Runtime (other pattern, same pattern with all placeholders set, a failing params writer, an exchange that died over https) and a later one; a placeholder left unset; placeholder names that are not identifiers; the request as the transport sees it when built through Submit, WithOpenTelemetry and WithOpenTracing; the reference owns its value slices. " +
+			"one run = one (base path with optional query, path pattern with 0–4 placeholders / repeated placeholder / trailing slash / static query, value map, " +
 			"caller query parameters, scheme lists) drawn from the tape; Runtime.CreateHttpRequest is executed once per permutation of the iteration order " +
 			"of the path-parameter map (all n! orders for n≤4; the other map ranges take a tape-chosen order) and every resulting URL must equal the others and " +
 			"the reference model (simultaneous substitution of url.PathEscape(value) into path.Join(base, pattern), trailing slash kept, query = caller ∪ pattern ∪ base " +
